@@ -1,6 +1,6 @@
 /* C03 - Transmission errors in Teletext are corrected or contained, never shown as data.
  *
- * Fault enumeration (DESIGN.md C03) over 12 base transmissions built by a small
+ * Fault enumeration (DESIGN.md C03) over 13 base transmissions built by a small
  * transmitter model written here (EN 300 706 packet layouts: header, text rows, X/26,
  * X/27/0, X/27/4, X/28/0, X/28/4, M/29/0, 8/30 format 1 and 2, Hamming coded MOT rows).
  * The model also says which bytes of each packet are Hamming 8/4, Hamming 24/18, odd
@@ -30,6 +30,13 @@
  *      (level 1) shows, in the cells X/26 does not address, either the row transmitted
  *      earlier for this page (transmitter model, independent level 1 character model) or a
  *      blank row.  Header row: the damaged cells show a blank or the earlier character.
+ *      Containment ("the row keeps its earlier content", nothing else happens): when every
+ *      damaged text byte has a detectable (odd) number of flips, everything but the damaged
+ *      row equals the fault free run: set of cached pages, raw contents and fetched form of
+ *      all other pages, the other rows / links / enhancement data of this page (raw and
+ *      fetched), network data, and the event log (row fault: the complete sequence; header
+ *      fault: event kinds and page numbers, because a damaged header legitimately cannot
+ *      serve as rolling header reference, which changes header_update / clock_update flags).
  *  (d) at most two flips in every protected byte/triplet: every cached (pgno, subno) and
  *      every TTX_PAGE event names a page that the transmission contains.
  *
@@ -167,7 +174,7 @@ struct tx {
         int ntx; struct { int pgno, subno; } txset[MAXI];
 };
 
-#define NT 12
+#define NT 13
 static struct tx T[NT];
 static int nT;
 
@@ -563,6 +570,15 @@ static void build_transmissions(void)
         }
         tx_finish(t);
 
+        /* >= 3 pages of one magazine after the rolling header reference is established, none retransmitted:
+         * a fault in a later page's header must not disturb the pages cached before */
+        t = tx_new("four pages, rolling header", 0);
+        tx_header(t, 1, 0x00, 0, 0);      std_rows(t, 1, 0x100, 0, 1, ROWS(1));
+        tx_header(t, 1, 0x01, 0, 0);      std_rows(t, 1, 0x101, 0, 1, ROWS(1));
+        tx_header(t, 1, 0x02, 0, 0);      std_rows(t, 1, 0x102, 0, 1, ROWS(1, 2));
+        tx_header(t, 1, 0x03, 0, 0);      std_rows(t, 1, 0x103, 0, 1, ROWS(1));
+        tx_finish(t);
+
         if (nT != NT) die("transmission count %d", nT);
 }
 
@@ -597,7 +613,13 @@ struct snap {
         int nkeys; struct pgkey key[32];
         int nev;   struct pgkey evk[64];
         int nevents;
+        /* focus page (the page the faulted packet belongs to): per row detail; all other pages as one hash */
+        uint64_t evkeys, oth_cache, oth_fmt;
+        int f_present; unsigned f_lop;
+        uint64_t f_rest, f_rowraw[26], f_rowfmt[25];
 };
+
+static int focus_pgno = -1, focus_subno = -1;
 
 /* (c) probe: where and what to look at while the run proceeds */
 struct cprobe {
@@ -610,7 +632,7 @@ struct cprobe {
         int seen, kept, blank, bad, bad_col; unsigned bad_char; int bad_step;
 };
 
-struct evctx { struct hx seq; uint64_t set; int n; int nev; struct pgkey evk[64]; };
+struct evctx { struct hx seq, keys; uint64_t set; int n; int nev; struct pgkey evk[64]; };
 
 static const char *run_label = "";
 static int verbose;
@@ -654,6 +676,8 @@ static void on_event(vbi_event *e, void *ud)
                 break;
         }
         uint64_t v = hx_fin(&h);
+        if (e->type == VBI_EVENT_TTX_PAGE) { hx_u64(&x->keys, e->type); hx_u64(&x->keys, e->ev.ttx_page.pgno); hx_u64(&x->keys, e->ev.ttx_page.subno); }
+        else hx_u64(&x->keys, v);
         hx_u64(&x->seq, v);
         x->set += mix64(v);
         x->n++;
@@ -674,6 +698,9 @@ static void hash_page_fields(struct hx *h, const cache_page *cp, size_t datalen)
         hx_u64(h, cp->x27_designations); hx_u64(h, cp->x28_designations);
         /* raw[0][0..7] keep the header's address/control bytes as received (uncorrected); nothing
          * decodes them again, the formatter prints pgno/subno instead: not part of the canonical state */
+        if (cp->function == PAGE_FUNCTION_MOT || cp->function == PAGE_FUNCTION_BTT
+            || cp->function == PAGE_FUNCTION_MPT || cp->function == PAGE_FUNCTION_MPT_EX)
+                return;         /* parsed into network data row by row; the data union only holds leftovers of the page before */
         if (cp->function != PAGE_FUNCTION_POP && cp->function != PAGE_FUNCTION_GPOP && cp->function != PAGE_FUNCTION_AIT)
                 hx_add(h, (const uint8_t *) &cp->data + 8, datalen - 8);
         else
@@ -708,14 +735,31 @@ static void take_snapshot(vbi_decoder *vbi, struct evctx *ev, struct snap *s)
                         if (cp->network == vbi->cn && np < 64) pages[np++] = cp;
         }
         qsort(pages, np, sizeof pages[0], cmp_cp);
-        struct hx hk, hc, hf; hx_init(&hk); hx_init(&hc); hx_init(&hf);
-        s->nkeys = 0;
+        struct hx hk, hc, hf, hoc, hof; hx_init(&hk); hx_init(&hc); hx_init(&hf); hx_init(&hoc); hx_init(&hof);
+        s->nkeys = 0; s->f_present = 0;
         for (int i = 0; i < np; i++) {
                 cache_page *cp = pages[i];
                 hx_u64(&hk, cp->pgno); hx_u64(&hk, cp->subno);
                 if (s->nkeys < 32) { s->key[s->nkeys].pgno = cp->pgno; s->key[s->nkeys].subno = cp->subno; s->nkeys++; }
                 hash_page_fields(&hc, cp, cache_page_size(cp) - (sizeof *cp - sizeof cp->data));
                 hx_u64(&hc, cp->priority);
+                if (cp->pgno == focus_pgno && cp->subno == focus_subno && (cp->function == PAGE_FUNCTION_LOP || cp->function == PAGE_FUNCTION_UNKNOWN)) {
+                        size_t dl = cache_page_size(cp) - (sizeof *cp - sizeof cp->data);
+                        struct hx h; hx_init(&h);
+                        hx_u64(&h, (uint64_t)(int64_t) cp->function); hx_u64(&h, cp->national); hx_u64(&h, cp->flags);
+                        hx_u64(&h, cp->x26_designations); hx_u64(&h, cp->x27_designations); hx_u64(&h, cp->x28_designations); hx_u64(&h, cp->priority);
+                        hx_add(&h, (const uint8_t *) &cp->data + sizeof cp->data.lop.raw, dl - sizeof cp->data.lop.raw);
+                        s->f_rest = hx_fin(&h); s->f_lop = cp->lop_packets; s->f_present = 1;
+                        for (int r = 0; r < 26; r++) s->f_rowraw[r] = mc_hash64(cp->data.lop.raw[r] + (r ? 0 : 8), r ? 40 : 32);
+                        static vbi_page pg; memset(&pg, 0, sizeof pg);
+                        if (vbi_fetch_vt_page(vbi, &pg, cp->pgno, cp->subno, VBI_WST_LEVEL_2p5, 25, TRUE))
+                                for (int r = 0; r < 25; r++) s->f_rowfmt[r] = mc_hash64(pg.text + r * pg.columns, 40 * sizeof pg.text[0]);   /* not the artificial column 41 */
+                        else memset(s->f_rowfmt, 0, sizeof s->f_rowfmt);
+                } else {
+                        hash_page_fields(&hoc, cp, cache_page_size(cp) - (sizeof *cp - sizeof cp->data));
+                        hx_u64(&hoc, cp->priority);
+                        hash_fetched(&hof, vbi, cp->pgno, cp->subno);
+                }
                 if (verbose) {
                         struct hx h1; hx_init(&h1); hash_page_fields(&h1, cp, cache_page_size(cp) - (sizeof *cp - sizeof cp->data));
                         fprintf(stderr, "  [%s] cached %03x.%04x function=%d flags=%06x national=%d lop_packets=%08x x26=%x x27=%x x28=%x pri=%d hash=%016llx\n", run_label,
@@ -725,6 +769,7 @@ static void take_snapshot(vbi_decoder *vbi, struct evctx *ev, struct snap *s)
         }
         for (int i = 0; i < np; i++) hash_fetched(&hf, vbi, s->key[i < 32 ? i : 31].pgno, s->key[i < 32 ? i : 31].subno);
         s->c[C_KEYS] = hx_fin(&hk); s->c[C_CACHE] = hx_fin(&hc); s->c[C_FMT] = hx_fin(&hf);
+        s->oth_cache = hx_fin(&hoc); s->oth_fmt = hx_fin(&hof); s->evkeys = hx_fin(&ev->keys);
 
         struct hx hn; hx_init(&hn);
         cache_network *cn = vbi->cn;
@@ -797,7 +842,7 @@ static void run_tx(const struct tx *t, const uint8_t *skip, int fk, const uint8_
 {
         vbi_decoder *vbi = vbi_decoder_new();
         if (!vbi) die("vbi_decoder_new");
-        struct evctx ev; memset(&ev, 0, sizeof ev); hx_init(&ev.seq);
+        struct evctx ev; memset(&ev, 0, sizeof ev); hx_init(&ev.seq); hx_init(&ev.keys);
         if (!vbi_event_handler_register(vbi, VBI_EVENT_TTX_PAGE | VBI_EVENT_NETWORK | VBI_EVENT_NETWORK_ID
                                              | VBI_EVENT_LOCAL_TIME | VBI_EVENT_PROG_ID, on_event, &ev))
                 die("event handler");
@@ -855,7 +900,7 @@ static void self_check(void)
                 const struct tx *t = &T[ti];
                 struct snap s;
                 vbi_decoder *vbi = vbi_decoder_new();
-                struct evctx ev; memset(&ev, 0, sizeof ev); hx_init(&ev.seq);
+                struct evctx ev; memset(&ev, 0, sizeof ev); hx_init(&ev.seq); hx_init(&ev.keys);
                 vbi_event_handler_register(vbi, VBI_EVENT_TTX_PAGE, on_event, &ev);
                 for (int i = 0; i < t->n; i++) {
                         vbi_sliced sl; memset(&sl, 0, sizeof sl);
@@ -993,6 +1038,8 @@ static void case_init(struct casectx *cx, int ti, int k)
         memset(cx, 0, sizeof *cx);
         cx->ti = ti; cx->k = k;
         const struct tx *t = &T[ti];
+        focus_pgno = focus_subno = -1;
+        if (t->p[k].inst >= 0) { focus_pgno = t->in[t->p[k].inst].pgno; focus_subno = t->in[t->p[k].inst].subno; }
         if (t->p[k].kind == PK_HEADER) {
                 /* pages in progress: last header of every magazine before k */
                 for (int m = 0; m < 8; m++) {
@@ -1155,6 +1202,29 @@ static void evaluate(struct casectx *cx, const uint8_t *mask, const char *family
                 else mc_outcome("(c) %s with parity error: %s%s", cl == CL_C ? "row" : "header cell", pr.kept ? "keeps earlier content" : "",
                                 pr.blank ? (pr.kept ? " / blank" : "blank") : "");
                 if (pr.seen) mc_count("c_fetches_checked", pr.seen);
+                if (cl == CL_C || !pareven) {
+                        /* containment: nothing but the damaged row may differ from the fault free run */
+                        const struct snap *b = get_base(cx);
+                        const char *what = NULL; int wr = -1;
+                        if (s.c[C_KEYS] != b->c[C_KEYS]) what = "set of cached pages changes";
+                        else if (s.oth_cache != b->oth_cache || s.oth_fmt != b->oth_fmt) what = "another page changes";
+                        else if (s.c[C_NET] != b->c[C_NET]) what = "network data changes";
+                        else if (cl == CL_C ? s.c[C_EVSEQ] != b->c[C_EVSEQ] : s.evkeys != b->evkeys) what = "event log changes";
+                        else if (s.f_present != b->f_present) what = "set of cached pages changes";
+                        else if (s.f_present) {
+                                if (s.f_rest != b->f_rest || ((s.f_lop ^ b->f_lop) & ~(1u << pr.row))) what = "other data of this page changes";
+                                for (int r = 0; r < 26 && !what; r++) {
+                                        if (r == pr.row) continue;
+                                        if (s.f_rowraw[r] != b->f_rowraw[r] || (r < 25 && s.f_rowfmt[r] != b->f_rowfmt[r])) { what = "another row of this page changes"; wr = r; }
+                                }
+                        }
+                        if (what) {
+                                snprintf(key, sizeof key, "(c) parity error in %s not contained: %s", cl == CL_C ? "text row" : "header text", what);
+                                mc_violation(key, "T=%s packet %d (page %03x.%04x row %d) %s%s: faulted run caches %d pages / %d events, fault free run %d / %d (row %d)", t->name, k, in->pgno, in->subno,
+                                             pr.row, ms, "", s.nkeys, s.nevents, b->nkeys, b->nevents, wr);
+                                explain(cx, mask, 0);
+                        } else mc_count("c_containment_checked", 1);
+                }
                 break;
         default:
                 break;
@@ -1416,7 +1486,7 @@ int main(int argc, char **argv)
         mc_meta("level", "fault_enumeration");
         mc_meta("technique", "bounded-exhaustive fault injection into transmissions of a transmitter model; each faulted transmission runs through vbi_decode() on a fresh decoder and is compared with fault free / packet dropped / page removed reference runs (canonical state hash: events, cache, fetched pages, network data, pages in progress)");
         mc_meta("rule", "one evaluation = one fault pattern (bit mask on one packet, or one dropped packet) of one base transmission; distinct = distinct (transmission, packet, mask); every pattern flips at least one transmitted bit and the decoder is run on it, so none is trivial; the class counters say which clause judged it");
-        mc_meta("assume", "page contents limited to the transmitter model's alphabet: letters, digits, space, colon, hyphen, alpha colour codes; 12 base transmissions (plain, update over cached copy with C8 and C4, subpages, clock subcode / C5 / C6 / C7 / C9 / C13, X/26 two packets, X/27/0 + X/27/4, X/28/0 + X/28/4 + M/29/0 + M/29/4, 8/30 format 1, 8/30 format 2, two magazines parallel, magazine serial, Hamming coded MOT rows)");
+        mc_meta("assume", "page contents limited to the transmitter model's alphabet: letters, digits, space, colon, hyphen, alpha colour codes; 13 base transmissions (plain, update over cached copy with C8 and C4, subpages, clock subcode / C5 / C6 / C7 / C9 / C13, X/26 two packets, X/27/0 + X/27/4, X/28/0 + X/28/4 + M/29/0 + M/29/4, 8/30 format 1, 8/30 format 2, two magazines parallel, magazine serial, Hamming coded MOT rows, four pages with rolling header)");
         mc_meta("assume", "one faulted packet per run (faults in two different packets of one transmission are not combined)");
         mc_meta("assume", "packet types not in the transmissions: X/27/1-3 and 5-7, X/28/1 and 3, MIP/BTT/AIT/POP/DRCS page rows, 8/30 via packet 31");
         mc_meta("assume", "canonical state leaves out bytes raw[0][0..7] of a stored page (the header's address/control bytes kept as received, never decoded again; exp-vtx writes them out verbatim) and the clock_update bit of a TTX_PAGE event whose roll_header is 0 (store_lop() leaves it uninitialised)");
